@@ -43,6 +43,9 @@ def main():
     ap.add_argument('--no-sweep', action='store_true')
     ap.add_argument('--sweep', action='store_true',
                     help='run the small-scope sweep even with --runs')
+    ap.add_argument('--isolated', type=int, default=None,
+                    help='internal: run this one seed with a write-ahead log')
+    ap.add_argument('--wal', default=None)
     ap.add_argument('--digests', default=None,
                     help='write {seed: digest} JSON here (self-tests)')
     args = ap.parse_args()
@@ -55,6 +58,10 @@ def main():
         print('HARNESS-ERROR: biom imported from %s, not %s'
               % (biom.__file__, repo))
         sys.exit(2)
+    if args.isolated is not None:
+        from sim import runner
+        sys.exit(runner.isolated_seed(args.prop, args.tier, args.isolated,
+                                      args.wal))
     from sim import driver
     sys.exit(driver.check(args.prop, args.tier, args))
 
